@@ -124,7 +124,10 @@ func (f prefixFilter) Filter(refname string) bool {
 // whose names match the specified `prefix`, which must match the
 // whole reference name.
 func RegexpFilter(pattern string) (ReferenceFilter, error) {
-	pattern = "^" + pattern + "$"
+	// Group the pattern before anchoring it, so that the anchors apply
+	// to the whole pattern and not only to the first and last
+	// alternatives of a top-level alternation like `A|B`:
+	pattern = "^(?:" + pattern + ")$"
 	re, err := regexp.Compile(pattern)
 	if err != nil {
 		return nil, err
